@@ -954,7 +954,7 @@ Proof.
     destruct (run_loop_ps p fuel a) as [Q|Q]; fold lb in Q.
     - rewrite Q, (en_ps _ _ _ _ En). reflexivity.
     - exfalso. destruct (after_loop_ps lb) as [P1 _]. destruct (P1 Q) as [P2 _]. congruence. }
-  rewrite Hrs. cbn [andb]. apply Z.ltb_lt. lia.
+  rewrite Hrs. cbn [andb]. apply Z.leb_le. lia.
 Qed.
 
 (* ------------------------------------------------------------------ *)
@@ -994,8 +994,8 @@ Lemma do_step_clock_le p s :
   snd (do_step p s) = ResOk -> clock (fst (do_step p s)) <= end_time s.
 Proof.
   unfold do_step. destruct (step_checks s) eqn:Ck; [|discriminate]. intros _. cbv zeta. cbn [fst].
-  assert (Lt : clock s < end_time s).
-  { unfold step_checks in Ck. apply andb_true_iff in Ck. destruct Ck as [_ Ck]. apply Z.ltb_lt; auto. }
+  assert (Lt : clock s <= end_time s).
+  { unfold step_checks in Ck. apply andb_true_iff in Ck. destruct Ck as [_ Ck]. apply Z.leb_le; auto. }
   set (s1 := match ps s with PInit => _ | _ => s end).
   set (s2 := emit (NStart (clock s1)) (set_rs RStarted s1)).
   assert (K2 : clock s2 = clock s /\ end_time s2 = end_time s)
@@ -1229,42 +1229,31 @@ Proof.
 Qed.
 
 (* ------------------------------------------------------------------ *)
-(** * The boundary at the end time, refuted as a general statement
+(** * The guard at the end time
 
-    "Any segmentation gives the uninterrupted run" is false without the
-    hypothesis that the replication ENDED: a run that pauses exactly at the end
-    time while events at that time are still pending (here: by two steps) is
-    STOPPED / STARTED with the clock at the end; every run command is then
-    refused, the remaining event never runs, the replication never ends. *)
+    With the guard of the pinned code ("refuse when clock >= end") a run that
+    pauses exactly at the end time while events at that time are still pending
+    (here: by two steps) could never be resumed or ended; with the repaired
+    guard ("clock > end", the one [start_checks] models) the resuming start
+    executes the remaining event and ends the replication with the trace of
+    the uninterrupted run. *)
+Definition start_checks_pinned (s : sim) : bool :=
+  negb (running s)
+  && match rep s with Some _ => true | None => false end
+  && match rs s with RNotInit => false | _ => true end
+  && match ps s with PInit | PStarted => true | _ => false end
+  && (clock s <? end_time s).
+
 Definition end_prog : program :=
   [ [ASched (MAbs (TNum 28)) 5 1; ASched (MAbs (TNum 32)) 5 1; ASched (MAbs (TNum 32)) 5 1]; [] ].
 Definition end_s0 : sim := fst (do_cmd 100 end_prog (init_sim SWarnPause) (CInit (mkRepl 0 0 32))).
-Definition end_cuts : list cmd := [CRunUpTo (TNum 28); CStep; CStep].
-Definition end_s1 : sim := fst (run_cmds 100 end_prog end_s0 end_cuts).
+Definition end_s1 : sim := fst (run_cmds 100 end_prog end_s0 [CRunUpTo (TNum 28); CStep; CStep]).
+Definition end_s2 : sim := fst (do_cmd 100 end_prog end_s1 CStart).
 Definition end_t1 : sim := fst (do_cmd 100 end_prog end_s0 CStart).
 
-Theorem segmentation_without_ended_refuted :
-  exists p s cs,
-    Quiet s /\ forallb is_runcmd cs = true /\
-    let s1 := fst (run_cmds 100 p s cs) in
-    let t1 := fst (do_cmd 100 p s CStart) in
-    ps t1 = PEnded /\ incl t1 = true /\ flag t1 = false /\ flag s1 = false
-    /\ ps s1 = PStarted /\ rs s1 = RStopped /\ clock s1 = end_time s1 /\ length (pend s1) = 1%nat
-    /\ length (trace s1) = 3%nat /\ length (trace t1) = 4%nat
-    /\ (forall c fuel, is_runcmd c = true -> do_cmd fuel p s1 c = (s1, ResRefused)).
-Proof.
-  exists end_prog, end_s0, end_cuts.
-  split; [left; apply do_init_live; reflexivity|]. split; [reflexivity|]. cbv zeta.
-  change (fst (run_cmds 100 end_prog end_s0 end_cuts)) with end_s1.
-  change (fst (do_cmd 100 end_prog end_s0 CStart)) with end_t1.
-  assert (S1 : start_checks end_s1 = false) by (vm_compute; reflexivity).
-  assert (S2 : step_checks end_s1 = false) by (vm_compute; reflexivity).
-  assert (R1 : running end_s1 = false) by (vm_compute; reflexivity).
-  repeat (split; [vm_compute; reflexivity|]).
-  intros c fuel Hc. destruct c; try discriminate; cbn [do_cmd]; auto.
-  - destruct (rep end_s1); auto. unfold do_start. rewrite S1. reflexivity.
-  - unfold do_step. rewrite S2. reflexivity.
-  - rewrite R1. reflexivity.
-  - unfold do_start. rewrite S1. reflexivity.
-  - unfold do_start. rewrite S1. reflexivity.
-Qed.
+Theorem pause_at_end_refuted_for_pinned_guard :
+  ps end_s1 = PStarted /\ rs end_s1 = RStopped /\ clock end_s1 = end_time end_s1
+  /\ length (pend end_s1) = 1%nat /\ length (trace end_s1) = 3%nat /\ length (trace end_t1) = 4%nat
+  /\ start_checks_pinned end_s1 = false
+  /\ start_checks end_s1 = true /\ ps end_s2 = PEnded /\ trace end_s2 = trace end_t1 /\ clock end_s2 = clock end_t1.
+Proof. vm_compute. repeat split. Qed.
